@@ -159,7 +159,7 @@ Section EvalDec.
     | UExp2 => o2 DPowd d_two v
     | UFactorial => dfactorial v
     | ULambertW => dlambert v
-    | USqrt => o1 DSqrt v
+    | USqrt => o1 DSqrt (if dec_is_zero v then {| d_neg := false; d_coef := d_coef v; d_scale := d_scale v |} else v)
     | _ => Err
     end.
 
